@@ -18,7 +18,7 @@ OP(ch) == [t |-> "op", ch |-> ch, d |-> 0, p |-> 0]
 IsMSpace(s) == s \in {"msp", "mti"}
 IsMPunct(s) == s \in {"mdt", "mcm"}
 IsMOper(s) == s \in {"meq", "mpl"}
-IsMElem(s) == s \in {"my", "mw", "mal", "mfr", "msb"}        \* things that make a maths element
+IsMElem(s) == s \in {"my", "mw", "mal", "muk", "mfr", "msb"}        \* things that make a maths element
 IsMIgnored(s) == s \in {"mlb", "mnn", "mob", "mcb"}            \* \label{k}, \nonumber, braces
 PunctCh(s) == IF s = "mdt" THEN "." ELSE ","
 OperCh(s) == IF s = "meq" THEN "=" ELSE "+"
